@@ -11,6 +11,71 @@ CHECKS = {
    "Random finite graph models (self-loops, joins, cycles, ignored actions, several initial states, boundary cuts) are run through the real checkers at 1-16 threads, with default and tiny block sizes and on large layered graphs; a visitor log and the public counters are compared with an independently computed reachable set (exactly-once, real paths, unique_state_count, state_count >= unique). Held on the executions produced; not a proof over all models or schedules.",
    "Trusts the 60-line reachability oracle and the generator; u32 states so 64-bit fingerprint collisions are ignored; schedules are whatever the OS produced.",
    "DESIGN.md section 5 C01"),
+ "C02": (True, "exploration",
+   "runtime monitoring: discoveries/assert_properties/is_done of completed real checks vs labels evaluated on an oracle reachable set",
+   "Random graphs with mixed always/sometimes properties (plus eventually bystanders) checked by BFS, DFS, on-demand and DFS+symmetry (mirror-symmetric graphs) at 1-8 threads; for every property the presence of a discovery is compared with the oracle, as are assert_properties and is_done. Exploration of sampled models, not all models.",
+   "Trusts the reachability oracle and the label generator; symmetric models are limited to an involution symmetry here (richer ones under C10).",
+   "DESIGN.md section 5 C02"),
+ "C03": (True, "exploration",
+   "runtime monitoring: every Path returned by discoveries() re-validated step by step against the model (witness validator)",
+   "All five strategies (BFS, DFS, on-demand, simulation with several seeds, DFS+symmetry), all six finish conditions, 1-4 threads, graphs with several properties of all kinds so checking continues past the first discovery; each returned path must start in an initial state, follow real in-boundary transitions and meet the expectation-specific end condition (eventually: no satisfying state, and terminal or - simulation only - cycle closing).",
+   "Trusts the 50-line validator; simulation runs need an in-boundary initial state and a state-count target to terminate.",
+   "DESIGN.md section 5 C03"),
+ "C04": (True, "exploration",
+   "runtime monitoring with a recording Hasher: ==, hash byte streams and fingerprints of real values vs equality of the structural descriptions they were built from",
+   "Containers, timers, networks, clocks, dense maps, testers and actor-system states are built from structural descriptions along randomised construction paths; for equal / near-miss / unrelated pairs the check demands description equality <=> == <=> identical hash byte stream, and equal fingerprints for equal values. Comparing byte streams (not 64-bit results) lets a finite run tell a systematic merge from bad luck.",
+   "Trusts that the description captures every behaviour-relevant component (it mirrors the public fields); PartialOrd of the hashable containers is out of scope.",
+   "DESIGN.md section 5 C04"),
+ "C05": (True, "exploration",
+   "runtime monitoring + sanitizers: job-market event log (hooked under the market lock) checked against a sequential market specification, visited multisets/verdicts vs single-threaded run, real join under a watchdog with hang diagnosis, perturbation at hook points; TSan and Miri lanes in thorough",
+   "2-32 worker threads under seven perturbation profiles, tiny and default block sizes, large shared-block graphs, the Broker facade driven directly, stop reasons (exhaustion, finish condition, target, model panic). Monitors: exactly-once evaluation, verdict equality with the 1-thread run, market conservation/ordering spec over the event log, termination of join, panic surfacing. Thorough adds a ThreadSanitizer build of the same workload and Miri with many scheduler seeds. Schedules seen are counted (distinct interleavings), not enumerated.",
+   "Reach is limited to interleavings actually produced (OS scheduling, injected delays, Miri seeds); a late join while the market still changes is inconclusive.",
+   "DESIGN.md section 5 C05"),
+ "C06": (True, "exploration",
+   "runtime monitoring: lock-step differential of the real ActorModel against an independent reference semantics at every state of walks and BFS prefixes",
+   "Generated table-driven actor systems (timers, random choices, crashes, history hooks, all network kinds, lossy or not): at every visited state the multiset of effective (action, successor) pairs and next_steps of the real model are compared with a reference interpreter written from the property text, component by component.",
+   "The reference interpreter is the executable reading of the statement; it shares only the reaction tables with the code under test. Offered-but-ineffective actions are not compared.",
+   "DESIGN.md section 5 C06"),
+ "C07": (True, "exploration",
+   "runtime monitoring: reference network model + per-kind trace laws over recorded deliver/drop/send traces; bounded iteration of iter_all",
+   "Networks built through the public constructors and evolved through the real ActorModel are compared with a reference network (contents, len, iter_all as a multiset with bounded iteration, iter_deliverable) at every state; taken traces are additionally checked against conservation laws per network kind (ordered: oldest-of-flow, non-duplicating: consumed <= sent, duplicating: no delivery after drop, drops only when lossy).",
+   "send/on_deliver/on_drop are crate-private, so they are exercised through ActorModel steps only.",
+   "DESIGN.md section 5 C07"),
+ "C08": (True, "exploration",
+   "runtime monitoring: is_consistent/serialized_history/error results of the real tester vs brute-force linearizability by definition",
+   "Plausible, random and ill-formed histories over five sequential specifications (three provided, two harness-defined), plus complete enumeration of small histories: the tester's answer, its serialization, its length and its error behaviour are compared with a definitional brute-force oracle.",
+   "Oracle search budget 2e6 nodes per history (exhaustion is inconclusive); histories have <= 9 operations over <= 4 threads.",
+   "DESIGN.md section 5 C08"),
+ "C09": (True, "fault_enumeration",
+   "runtime monitoring: crash injected at every prefix of recorded walks, compared with the reference semantics; real BFS/DFS visited sets vs reference reachable sets keyed incl. crash flags",
+   "For each recorded base walk a crash of every up actor is injected at every prefix (enumerated), the crash successor and following steps are compared with the reference, and direct assertions (crash offered iff budget allows, crashed actors silent, their mail kept) are made; bounded systems are checked exhaustively by the real checkers and the visited set must equal the reference reachable set including all crashed configurations.",
+   "Base walks and systems are sampled; reference reachable sets above 6000 states are skipped.",
+   "DESIGN.md section 5 C09"),
+ "C11": (True, "exploration",
+   "runtime monitoring: eventually-discoveries of every strategy vs a maximal-path (terminal or lasso) oracle on the graph",
+   "General graphs for the no-false-alarm half (any strategy, incl. simulation) and oracle-verified forests for exactness of the exhaustive checkers; 1-4 threads; property mixes.",
+   "Misses on non-forest graphs are allowed (documented limitation) and only counted.",
+   "DESIGN.md section 5 C11"),
+ "C12": (True, "exploration",
+   "runtime monitoring: stop reason vs configuration on real runs; logical bounds on evaluations after timeout expiry measured in worker subprocesses; seed replay of first traces",
+   "Seven sub-checks (HasDiscoveries::matches vs definition; early stop only for a reason; target_state_count; target_max_depth incl. 1-thread BFS completeness below the limit; timeout expiry on unbounded models for all strategies and thread counts; unexpired timeout transparency; seed replay incl. a recording chooser).",
+   "Timeout verdicts use logical bounds (evaluations started > 2.5 s after expiry <= 2 blocks per thread); a late join with few late evaluations is inconclusive.",
+   "DESIGN.md section 5 C12"),
+ "C13": (True, "exploration",
+   "runtime monitoring: visit order and discovery lengths of real 1-thread BFS vs oracle BFS distances",
+   "Graphs with joins offering routes of different length, several initial states and boundaries; multi-block layered graphs; order must be non-decreasing in oracle distance and every always/sometimes witness as short as the oracle minimum.",
+   "Only threads(1).spawn_bfs() is judged, as the statement says.",
+   "DESIGN.md section 5 C13"),
+ "C14": (True, "exploration",
+   "runtime monitoring: real SC tester vs brute-force sequential consistency by definition; clone-immutability and Lin-subset-of-SC monitors",
+   "Same history workloads as C08 against a program-order-only oracle; whenever the linearizability tester accepts the SC tester must; at every prefix a clone is extended and the original's Debug/Hash/==/len/verdict/serialization compared before and after (both testers).",
+   "Same oracle budget as C08.",
+   "DESIGN.md section 5 C14"),
+ "C20": (True, "exploration",
+   "runtime monitoring: results of real clock/map operations vs algebraic laws and an independent component-wise model",
+   "Random and related vector clocks (padding, one component off) and complete small spaces for pairs and triples: partial order laws, equality/hash compatibility, merge_max as least upper bound, incremented; dense maps vs a Vec model incl. order independence, gap/duplicate rejection, insert and rewrite under plans with ties.",
+   "Components stay below u32::MAX (release build without overflow checks).",
+   "DESIGN.md section 5 C20"),
 }
 
 NOT_BUILT_REASON = "check not built yet in this session (work in progress; see DESIGN.md section 5)"
